@@ -226,6 +226,10 @@ def run(pid, tier, seed, args, t0):
             log("TRIAGE %s x%d  sig=%s" % (pid, len(rs), sig))
             log("   example: " + signatures.example(rs[0]))
         log("triage: %d unlisted signatures, %d known re-observed" % (len(by_sig), len(seen_known)))
+        if args.emit_known:
+            ents = [{"property": pid, "signature": sig, "count_when_listed": len(rs), "what": "", "example": signatures.example(rs[0])[:600]}
+                    for sig, rs in sorted(by_sig.items())]
+            json.dump(ents, open(args.emit_known, "w"), indent=1)
     else:
         rdir = os.path.join(vlib.VERIF, "replays", pid)
         shutil.rmtree(rdir, ignore_errors=True)
